@@ -45,7 +45,8 @@ def F(x) -> Fraction:
 
 
 class StepMeasure(LevyMeasure):
-    def __init__(self, breaks, dens, finite_variation: bool = True):
+    def __init__(self, breaks, dens, finite_variation: bool = True, strict: bool = True):
+        self.strict = strict      # strict: every returned integral must be an exact double (dyadic inputs only)
         self.breaks = [Fraction(b) for b in breaks]
         self.dens = [Fraction(d) for d in dens]
         assert len(self.breaks) == len(self.dens) + 1 and len(self.dens) >= 1
@@ -98,21 +99,24 @@ class StepMeasure(LevyMeasure):
                 tot += d * (h ** (n + 1) - l ** (n + 1)) / (n + 1)
         return tot
 
+    def _out(self, fr: Fraction) -> float:
+        return exact_float(fr) if self.strict else float(fr)
+
     def integrate(self, a: float, b: float) -> float:
         if a > b:
             raise ValueError("Expected a<b when integrating the levy measure")
         self.calls += 1
-        return exact_float(self.moment_q(a, b, 0))
+        return self._out(self.moment_q(a, b, 0))
 
     def integrate_against_x(self, a: float, b: float) -> float:
         if a > b:
             raise ValueError("Expected a<b when integrating the levy measure")
-        return exact_float(self.moment_q(a, b, 1))
+        return self._out(self.moment_q(a, b, 1))
 
     def integrate_against_xx(self, a: float, b: float) -> float:
         if a > b:
             raise ValueError("Expected a<b when integrating the levy measure")
-        return exact_float(self.moment_q(a, b, 2))
+        return self._out(self.moment_q(a, b, 2))
 
     # ---- Coq literal of the measure: list of (lo, hi, density)
     def coq(self) -> str:
